@@ -1,8 +1,324 @@
-import NavisModel.Model.Resample
+import NavisModel.Proofs.ResampleLemmas
+import NavisModel.Proofs.ResampleGeomLemmas
+import NavisModel.Proofs.ResampleRealLemmas
+import NavisModel.Proofs.DownsampleLemmas
+/-!
+# C13 — down- and resampling preserve branching structure and geometry
+
+**Downsampling** (`Forest.downsample`, the line-by-line model of `_downsample_treeneuron`; `f = none`
+is `factor = inf`; `pres` = preserved nodes and somas).  `DsSpec t u f fix` is the property's clause list
+for an output table `u`; `downsample_satisfies_spec` proves it for the model for every well-formed,
+correctly labelled forest, every factor and every preserved set; `dsCheck_sound` shows that the executable
+checker the driver evaluates on navis' own output decides that same clause list.
+
+**Resampling** (`Resample.resampleStruct` for ids / parent links, `Resample.polyAt` for positions and
+radius over `Rat`): anchors are kept, between the two anchors of every small segment the result is a
+chain of fresh ids, every sampled point lies on the original cable, no new edge is longer than the arc it
+replaces (so cable length does not increase), the result is a well-formed forest, and the remap of
+soma / connectors / tags picks a nearest node.
+
+All theorems quantify over every table / factor / resolution / count function; no bound on sizes.
+-/
 namespace Navis.Props.C13
 open Navis.Forest Navis.Resample
 
-theorem fresh_length (base : Int) (k : Nat) : (fresh base k).length = k := by
-  simp [fresh]
+/-! ## Downsampling -/
+
+/-- Kept nodes are original nodes with unchanged ids and coordinates. -/
+theorem downsample_subset_ids_coords (t : Table) (f : Option Nat) (pres : List Int) :
+    ∀ m ∈ downsample t f pres, ∃ n ∈ t, n.id = m.id ∧ n.x = m.x ∧ n.y = m.y ∧ n.z = m.z :=
+  downsample_subset t f pres
+
+/-- Every fix point — labelled non-slab, or listed in `pres` (preserved nodes, somas) — survives. -/
+theorem downsample_keeps_fixpoints (t : Table) (hw : WF t) (f : Option Nat) (pres : List Int) (n : Node)
+    (hn : n ∈ t) (hfix : n.label ≠ .slab ∨ n.id ∈ pres) : n.id ∈ ids (downsample t f pres) :=
+  Navis.Forest.downsample_keeps_fixpoints hw f pres hn hfix
+
+/-- With correct labels: roots, leafs and branch points (every node that is not a non-root with exactly
+one child) survive, for every factor. -/
+theorem downsample_keeps_roots_leafs_branches (t : Table) (hw : WF t) (hl : labelsOKB t = true)
+    (f : Option Nat) (pres : List Int) (n : Node) (hn : n ∈ t)
+    (ha : n.parent < 0 ∨ childCount t n.id ≠ 1) : n.id ∈ ids (downsample t f pres) := by
+  apply Navis.Forest.downsample_keeps_fixpoints hw f pres hn
+  left
+  rw [(labelsOKB_iff t).mp hl n hn]
+  unfold labelOf
+  rcases ha with h | h
+  · simp [h]
+  · by_cases hp : n.parent < 0
+    · simp [hp]
+    · simp only [hp, decide_false, Bool.false_eq_true, if_false]
+      split
+      · simp
+      · simp [h]
+
+/-- The executable checker evaluated by the driver on navis' output decides the clause list `DsSpec`. -/
+theorem dsCheck_sound (t u : Table) (f : Option Nat) (fix : List Int) (h : dsCheck t u f fix = true) :
+    DsSpec t u f fix := dsCheck_sound' h
+
+/-- **The model satisfies the whole downsampling clause list**, for every well-formed correctly labelled
+forest, every factor (`none` = inf) and every preserved set: kept rows are original rows; all fix points
+are kept; every kept node is linked to the first kept node on the tail of its old root path; with a
+finite factor `k` at most `k` nodes are dropped in between. -/
+theorem downsample_satisfies_spec (t : Table) (hw : WF t) (hl : labelsOKB t = true) (f : Option Nat)
+    (pres : List Int) (fix : List Int)
+    (hfix : ∀ i ∈ fix, ∃ n ∈ t, n.id = i ∧ (n.label ≠ .slab ∨ i ∈ pres)) :
+    DsSpec t (downsample t f pres) f fix :=
+  downsample_spec hw f pres (one_child_of_labels hw hl pres) fix hfix
+
+/-- **Nearest kept ancestor**: the new parent of a kept node is negative (the node was a root) or a
+*proper ancestor* of it in `t` that is itself kept, and no kept node lies strictly between the two. -/
+theorem downsample_parent_is_kept_ancestor (t : Table) (hw : WF t) (hl : labelsOKB t = true)
+    (f : Option Nat) (pres : List Int) (m : Node) (hm : m ∈ downsample t f pres) :
+    m.parent < 0 ∨
+    (m.parent ∈ ids (downsample t f pres) ∧
+      ∃ between above, (rootPath t m.id).tail = between ++ m.parent :: above ∧
+        ∀ x ∈ between, x ∉ ids (downsample t f pres)) := by
+  obtain ⟨_, _, h3⟩ := downsample_satisfies_spec t hw hl f pres [] (by simp)
+  rcases h3 m hm with ⟨_, h⟩ | ⟨a, hfd, hpa, _⟩
+  · exact Or.inl h
+  · right
+    rw [List.find?_eq_some_iff_append] at hfd
+    obtain ⟨hka, as, bs, hl', has⟩ := hfd
+    rw [hpa]
+    refine ⟨by simpa using hka, as, bs, hl', ?_⟩
+    intro x hx
+    simpa using has x hx
+
+/-- **Gap ≤ factor**: with a finite factor `k` the new parent is among the first `k + 1` proper
+ancestors, i.e. at most `k` original nodes are dropped between a kept node and its new parent. -/
+theorem downsample_gap_le_factor (t : Table) (hw : WF t) (hl : labelsOKB t = true) (k : Nat)
+    (pres : List Int) (m : Node) (hm : m ∈ downsample t (some k) pres) (hp : 0 ≤ m.parent) :
+    m.parent ∈ (rootPath t m.id).tail ∧ (rootPath t m.id).tail.idxOf m.parent ≤ k := by
+  obtain ⟨_, _, h3⟩ := downsample_satisfies_spec t hw hl (some k) pres [] (by simp)
+  rcases h3 m hm with ⟨_, h⟩ | ⟨a, hfd, hpa, hgap⟩
+  · omega
+  · rw [hpa]
+    exact ⟨List.mem_of_find?_eq_some hfd, hgap k rfl⟩
+
+/-- Downsampling yields a well-formed forest with correct labels (or returns a ≤ 1-row input unchanged). -/
+theorem downsample_WF (t : Table) (hw : WF t) (f : Option Nat) (pres : List Int) :
+    WF (downsample t f pres) ∧ (downsample t f pres = t ∨ labelsOKB (downsample t f pres) = true) :=
+  ⟨WF_downsample hw f pres, labelsOKB_downsample t f pres⟩
+
+/-
+Full statement of "branching structure unchanged" (not proved in this form):
+
+  theorem downsample_branching_unchanged (t) (hw : WF t) (hl : labelsOKB t = true) (f pres) :
+      ∀ i ∈ ids (downsample t f pres), (childCount t i ≠ 1 ∨ i is a root) →
+        childCount (downsample t f pres) i = childCount t i
+
+What is proved: forks, tips and roots all survive (`downsample_keeps_roots_leafs_branches`), every kept
+node hangs below its nearest kept ancestor (`downsample_parent_is_kept_ancestor`), and a tip stays a tip
+(`downsample_branching_unchanged_partial` below).  Missing: the counting argument that the children of a
+kept node `i` in the result are in bijection with the children of `i` in `t` (each child's chain of
+dropped single-child nodes leads to exactly one kept node).  The equality of child counts of all
+roots / leafs / branch points is checked on navis' output and on the model's output by the harness.
+-/
+/-- A kept node without children in `t` has no children in the result (a tip stays a tip); more
+generally every child in the result witnesses a child in `t`. -/
+theorem downsample_branching_unchanged_partial (t : Table) (hw : WF t) (hl : labelsOKB t = true)
+    (f : Option Nat) (pres : List Int) (i : Int) (h : 0 < childCount (downsample t f pres) i) (hi : 0 ≤ i) :
+    0 < childCount t i := by
+  obtain ⟨c, hc, hcp⟩ := exists_child_of_pos h
+  rcases downsample_parent_is_kept_ancestor t hw hl f pres c hc with hneg | ⟨_, between, above, hpath, _⟩
+  · omega
+  · have hl2 := rootPath_linked t c.id
+    have hmem : c.parent ∈ (rootPath t c.id).tail := by rw [hpath]; simp
+    cases hrp : rootPath t c.id with
+    | nil => rw [hrp] at hmem; simp at hmem
+    | cons y l =>
+      rw [hrp] at hl2 hmem
+      rw [← hcp]
+      exact Linked_childCount_pos y l hl2 _ hmem
+
+/-! ## Resampling: rounding and node count -/
+
+/-- `roundHalfEven` is numpy's `round`: within ½ of the argument, the unique nearest integer when there
+is one, and the even neighbour on an exact tie. -/
+theorem roundHalfEven_spec (q : Rat) :
+    (roundHalfEven q : Rat) - q ≤ 1 / 2 ∧ q - (roundHalfEven q : Rat) ≤ 1 / 2 ∧
+    (∀ n : Int, (n : Rat) - q < 1 / 2 → q - (n : Rat) < 1 / 2 → roundHalfEven q = n) ∧
+    ((q - (roundHalfEven q : Rat) = 1 / 2 ∨ (roundHalfEven q : Rat) - q = 1 / 2) → roundHalfEven q % 2 = 0) :=
+  ⟨round_upper q, round_lower q, fun n h1 h2 => round_nearest q n h1 h2, round_tie_even q⟩
+
+/-- Segments shorter than the target collapse to their end points; all others get
+`round(total / res) ≥ 1` sample positions. -/
+theorem sampleCount_spec (total res : Rat) (hres : 0 < res) :
+    (total < res → sampleCount total res = none) ∧
+    (res ≤ total → ∃ n, sampleCount total res = some n ∧ 1 ≤ n ∧ (n : Int) = roundHalfEven (total / res)) := by
+  unfold sampleCount
+  refine ⟨fun h => by rw [if_pos h], fun h => ?_⟩
+  rw [if_neg (by exact not_lt.mpr h)]
+  have h1 : 1 ≤ total / res := by rw [le_div_iff₀ hres]; linarith
+  have := round_pos_of_ge_one _ h1
+  exact ⟨_, rfl, by omega, by omega⟩
+
+/-! ## Resampling: structure -/
+
+/-- **Well-formedness**: the resampled node table is a well-formed forest, for every well-formed input
+and every per-segment count function (in particular `cntOf len res` for every resolution). -/
+theorem resample_WF (t : Table) (hw : WF t) (cnt : List Int → Option Nat) :
+    WF (resampleStruct t cnt) ∧ labelsOKB (resampleStruct t cnt) = true :=
+  ⟨WF_resampleStruct hw cnt, labelsOKB_classify _⟩
+
+/-- **Anchors**: roots, leafs and branch points — i.e. the first and last node of every small segment —
+keep their id and coordinates. -/
+theorem resample_keeps_anchors (t : Table) (hw : WF t) (cnt : List Int → Option Nat) (n : Node) (hn : n ∈ t)
+    (ha : n.parent < 0 ∨ childCount t n.id ≠ 1) :
+    ∃ m ∈ resampleStruct t cnt, m.id = n.id ∧ m.x = n.x ∧ m.y = n.y ∧ m.z = n.z :=
+  anchor_mem_resampleStruct hw cnt hn ha
+
+/-- Roots stay roots. -/
+theorem resample_keeps_roots (t : Table) (hw : WF t) (cnt : List Int → Option Nat) (n : Node) (hn : n ∈ t)
+    (hp : n.parent < 0) : ∃ m ∈ resampleStruct t cnt, m.id = n.id ∧ m.parent = n.parent :=
+  let ⟨m, hm, h1, h2, _⟩ := root_mem_resampleStruct hw cnt hn hp
+  ⟨m, hm, h1, h2⟩
+
+/-- The plan has one entry per small segment, in order, with that segment's two anchors and
+`k = interior (cnt s)` fresh nodes. -/
+theorem resample_plan_segments (t : Table) (cnt : List Int → Option Nat) :
+    (planOf t cnt).length = (smallSegments t).length ∧
+    (planOf t cnt).map (·.first) = (smallSegments t).map segFirst ∧
+    ∀ o ∈ planOf t cnt, ∃ s ∈ smallSegments t, o.first = segFirst s ∧ o.last = segLast s ∧ o.k = interior (cnt s) := by
+  refine ⟨plan_length _ _ _, plan_map_first _ _ _, ?_⟩
+  intro o ho
+  obtain ⟨s, hs, h1, h2, h3, _⟩ := mem_plan ho
+  exact ⟨s, hs, h1, h2, h3⟩
+
+/-- **Structure between two anchors**: for every small segment (plan entry `o`) the result contains the
+chain `first → base → base+1 → … → base+k-1 → last` (for `k = 0`: `first → last`), and the `k` interior
+ids are fresh (above every id of `t`). -/
+theorem resample_structure (t : Table) (hw : WF t) (cnt : List Int → Option Nat) (o : SegOut)
+    (ho : o ∈ planOf t cnt) :
+    maxId t < o.base ∧
+    (∃ m ∈ resampleStruct t cnt, m.id = o.first ∧ m.parent = (if o.k = 0 then o.last else o.base)) ∧
+    (∀ j : Nat, j < o.k → ∃ m ∈ resampleStruct t cnt, m.id = o.base + (j : Int) ∧
+      m.parent = (if j + 1 = o.k then o.last else o.base + (j : Int) + 1)) := by
+  obtain ⟨rk, hrk, _⟩ := WF_rank_le hw
+  refine ⟨(planOf_ok hw hrk cnt).base_gt o ho, ?_, ?_⟩
+  · obtain ⟨m, hm, h1, h2, _⟩ := row_mem_resampleStruct hw cnt ho (linkPairs_first_mem o.first o.last o.base o.k)
+    exact ⟨m, hm, h1, h2⟩
+  · intro j hj
+    obtain ⟨m, hm, h1, h2, _⟩ := row_mem_resampleStruct hw cnt ho (linkPairs_fresh_mem o.first o.last o.base o.k j hj)
+    exact ⟨m, hm, h1, h2⟩
+
+/-- **New ids are fresh and unique**: the ids of the result are exactly the first anchors with their fresh
+interior ids, followed by the roots — a duplicate-free list; every interior id exceeds all ids of `t`, and
+the id ranges of different segments are disjoint. -/
+theorem resample_ids_fresh_unique (t : Table) (hw : WF t) (cnt : List Int → Option Nat) :
+    ids (resampleStruct t cnt) = planIds (planOf t cnt) ++ ids (t.filter isRootNode) ∧
+    (ids (resampleStruct t cnt)).Nodup ∧
+    (∀ o ∈ planOf t cnt, ∀ i ∈ fresh o.base o.k, ∀ j ∈ ids t, j < i) ∧
+    (planOf t cnt).Pairwise (fun o o' => o.base + (o.k : Int) ≤ o'.base) := by
+  obtain ⟨rk, hrk, _⟩ := WF_rank_le hw
+  have hok := planOf_ok hw hrk cnt
+  refine ⟨ids_resampleStruct hw cnt, (WF_resampleStruct hw cnt).1, ?_, hok.disjoint⟩
+  intro o ho i hi j hj
+  have := hok.base_gt o ho
+  have := (mem_fresh.mp hi).1
+  have := le_maxId hj
+  omega
+
+/-- **Node count**: one node per segment (its first anchor) plus its interior nodes, plus the roots. -/
+theorem resample_node_count (t : Table) (hw : WF t) (cnt : List Int → Option Nat) :
+    (resampleStruct t cnt).length =
+      (smallSegments t).length + ((planOf t cnt).map (·.k)).sum + (t.filter isRootNode).length :=
+  length_resampleStruct hw cnt
+
+/-! ## Resampling: geometry (over `Rat`) -/
+
+/-- **On the cable**: every sampled point — in particular every new node — is `a + τ·(b − a)` with
+`0 ≤ τ ≤ 1` for two *consecutive* nodes `a, b` of the original segment (all four columns x, y, z, radius
+with the same `τ`). -/
+theorem resample_on_cable (k0 k1 : Rat × Pt) (rest : List (Rat × Pt)) (s : Rat) :
+    ∃ (pre post : List (Rat × Pt)) (a b : Rat × Pt) (τ : Rat),
+      k0 :: k1 :: rest = pre ++ a :: b :: post ∧ 0 ≤ τ ∧ τ ≤ 1 ∧
+      polyAt (k0 :: k1 :: rest) s = lerpPt a.2 b.2 τ :=
+  polyAt_onCable k0 k1 rest s
+
+/-- The same for the list of interior points of a segment. -/
+theorem resample_interior_on_cable (k0 k1 : Rat × Pt) (rest : List (Rat × Pt)) (total : Rat) (k : Nat) :
+    ∀ p ∈ interiorPts (k0 :: k1 :: rest) total k, OnCable (k0 :: k1 :: rest) p := by
+  intro p hp
+  unfold interiorPts at hp
+  obtain ⟨j, _, rfl⟩ := List.mem_map.mp hp
+  exact polyAt_onCable k0 k1 rest _
+
+/-- The first sample is the first anchor's own position (`np.linspace` starts at 0), provided the arc
+lengths do not under-estimate the edge lengths (then a zero arc step means coincident nodes). -/
+theorem resample_first_sample_at_anchor (p : Pt) (ps : List Pt) (lens : List Rat) (h : LensOK (p :: ps) lens)
+    (total : Rat) (k : Nat) :
+    (polyAt (knots 0 (p :: ps) lens) (samplePos total k 0)).x = p.x ∧
+    (polyAt (knots 0 (p :: ps) lens) (samplePos total k 0)).y = p.y ∧
+    (polyAt (knots 0 (p :: ps) lens) (samplePos total k 0)).z = p.z := by
+  rw [samplePos_zero]
+  obtain ⟨tl, htl⟩ := knots_head 0 p ps lens
+  have hok := knots_arcOK 0 (p :: ps) lens h
+  rw [htl] at hok ⊢
+  have := sqd_first_polyAt (0, p) tl hok 0 (le_refl _)
+  have h0 : sqd p (polyAt ((0, p) :: tl) 0) = 0 := by
+    have h1 := sqd_nonneg p (polyAt ((0, p) :: tl) 0)
+    simp only [sub_self, mul_zero] at this
+    linarith
+  obtain ⟨hx, hy, hz⟩ := sqd_eq_zero h0
+  exact ⟨hx.symm, hy.symm, hz.symm⟩
+
+/-- **Chord ≤ arc** (squared form over `Rat`): consecutive samples of a segment are at most
+`total / (k + 1)` apart — every new edge is no longer than the piece of cable it replaces.  Hypothesis:
+the arc lengths used for the interpolation are non-negative and not smaller than the Euclidean edge lengths
+(`LensOK`; for exact lengths: equality). -/
+theorem resample_chord_le_arc (pts : List Pt) (lens : List Rat) (h : LensOK pts lens) (total : Rat)
+    (ht : 0 ≤ total) (k j : Nat) :
+    sqd (polyAt (knots 0 pts lens) (samplePos total k j)) (polyAt (knots 0 pts lens) (samplePos total k (j + 1))) ≤
+      (total / ((k : Rat) + 1)) * (total / ((k : Rat) + 1)) :=
+  chord_le_arc _ (knots_arcOK 0 pts lens h) total ht k j
+
+/-- **Cable length does not increase** (real-valued): the Euclidean length of the chain through the
+`k + 2` samples of a segment is at most the segment's arc length `total`. -/
+theorem resample_not_longer (pts : List Pt) (lens : List Rat) (h : LensOK pts lens) (total : Rat)
+    (ht : 0 ≤ total) (k : Nat) :
+    chainLen (samples (knots 0 pts lens) total k) ≤ (total : ℝ) :=
+  chainLen_samples_le _ (knots_arcOK 0 pts lens h) total ht k
+
+/-! ## Resampling: nearest-node remap -/
+
+/-- Soma / connectors / tags are re-attached to a node of the new table with minimal squared distance
+to the old position; such a node exists whenever the new table is non-empty. -/
+theorem nearest_is_argmin (nodes : List (Int × Pt)) (q : Pt) :
+    (nodes ≠ [] → (nearest nodes q).isSome) ∧
+    ∀ i, nearest nodes q = some i → ∃ n ∈ nodes, n.1 = i ∧ ∀ n' ∈ nodes, sqd n.2 q ≤ sqd n'.2 q :=
+  ⟨nearest_isSome q, fun _ h => nearest_spec h⟩
+
+/-! ## Non-vacuity: concrete inputs meeting the hypotheses -/
+
+/-- root 1 — 2 — 3 (branch) with tips 4 and 5–6–7–8, plus an isolated root 9; all edges have length 3 or 4. -/
+def ex : Table :=
+  [⟨1, -1, 0, 0, 0, .root⟩, ⟨2, 1, 3, 0, 0, .slab⟩, ⟨3, 2, 6, 0, 0, .branch⟩, ⟨4, 3, 9, 0, 0, .end_⟩,
+   ⟨5, 3, 6, 4, 0, .slab⟩, ⟨6, 5, 6, 8, 0, .slab⟩, ⟨7, 6, 6, 12, 0, .slab⟩, ⟨8, 7, 6, 16, 0, .end_⟩, ⟨9, -1, 100, 0, 0, .root⟩]
+
+theorem ex_WF : WF ex := wfB_sound (by decide)
+example : labelsOKB ex = true := by decide
+example : smallSegments ex = [[3, 2, 1], [4, 3], [8, 7, 6, 5, 3]] := by decide
+-- downsampling by 2: 8 → 5 (two dropped: 7, 6), 5 is kept because the scan reaches the `(f+1)`-th ancestor
+example : (downsample ex (some 2) []).map (fun n => (n.id, n.parent)) =
+    [(1, -1), (3, 1), (4, 3), (5, 3), (8, 5), (9, -1)] := by decide
+example : (downsample ex none []).map (fun n => (n.id, n.parent)) = [(1, -1), (3, 1), (4, 3), (8, 3), (9, -1)] := by decide
+example : dsCheck ex (downsample ex (some 2) [6]) (some 2) [1, 3, 4, 8, 9, 6] = true := by decide
+-- a table that violates the gap clause is rejected by the checker
+example : dsCheck ex [⟨1, -1, 0, 0, 0, .root⟩, ⟨3, 1, 6, 0, 0, .branch⟩, ⟨4, 3, 9, 0, 0, .end_⟩, ⟨8, 3, 6, 16, 0, .end_⟩,
+    ⟨9, -1, 100, 0, 0, .root⟩] (some 2) [] = false := by decide
+-- resampling with one node every 2 units: 3→1 (length 6) gets 1 interior node, 4→3 (length 3) collapses to its ends
+-- (round(1.5) = 2 sample positions), 8→3 (length 16) gets 6
+example : (resampleStruct ex (cntOf (coordLen ex) 2)).map (fun n => (n.id, n.parent)) =
+    [(3, 10), (10, 1), (4, 3), (8, 15), (15, 16), (16, 17), (17, 18), (18, 19), (19, 20), (20, 3), (1, -1), (9, -1)] := by
+  decide +kernel
+example : roundHalfEven (5 / 2) = 2 ∧ roundHalfEven (7 / 2) = 4 ∧ roundHalfEven (13 / 5) = 3 := by decide +kernel
+example : sampleCount 3 2 = some 2 ∧ sampleCount 1 2 = none ∧ sampleCount 2 2 = some 1 := by decide +kernel
+example : LensOK [⟨6, 0, 0, 1⟩, ⟨3, 0, 0, 2⟩, ⟨0, 0, 0, 4⟩] [3, 3] := by
+  refine ⟨by norm_num, by norm_num [sqd], by norm_num, by norm_num [sqd], trivial⟩
+example : interiorPts (knots 0 [⟨6, 0, 0, 1⟩, ⟨3, 0, 0, 2⟩, ⟨0, 0, 0, 4⟩] [3, 3]) 6 1 = [⟨3, 0, 0, 2⟩] := by
+  decide +kernel
+example : nearest [(1, ⟨0, 0, 0, 0⟩), (2, ⟨10, 0, 0, 0⟩), (3, ⟨4, 0, 0, 0⟩)] ⟨6, 0, 0, 0⟩ = some 3 := by decide +kernel
 
 end Navis.Props.C13
